@@ -116,5 +116,90 @@ pub fn run(tier: Tier) -> i32 {
     ctx.set_extra("failed_nodes_continued", json!(a.2));
     ctx.set_extra("completed_nodes_continued", json!(a.3));
     ctx.scope_done(&format!("latch-graphs/{}-inputs", ins.len()), ins.len() as u64, t0, &format!("{} states, {} edges, {} failed and {} completed nodes continued", a.0, a.1, a.2, a.3));
+    // ---------------------------------------------------------------- long inputs (linear): damage far into a stream that is handed over
+    // in very large writes (the failing symbol lies beyond the first 64 KiB of a single write), windows of exactly 1 MiB
+    // that wrap; after the failure: get_output None, write Ok(0), write_all Err, finish Err, sink unchanged
+    {
+        use crate::cases::{run_case, Case, Hex, Opts, SOp, Sk};
+        use crate::refmodel::enc::{self, Sym};
+        let t1 = Instant::now();
+        let mut items: Vec<(String, Case, bool)> = Vec::new();
+        let nlit = tier.pick(200_000usize, 600_000usize);
+        let lit: Vec<Sym> = (0..nlit as u32).map(|i| Sym::L((i.wrapping_mul(2654435761) >> 13) as u8)).collect();
+        let e = enc::encode(3, 0, 2, 1 << 16, &lit);
+        let file = enc::lzma_file(3, 0, 2, 1 << 16, Some(nlit as u64), &e.payload);
+        let probes = |first: Vec<SOp>| -> Vec<SOp> {
+            let mut v = first;
+            v.extend([SOp::GetOutput, SOp::Write(Hex(vec![0x55; 9])), SOp::StdWriteAll(Hex(vec![0xAA; 9])), SOp::Write(Hex(vec![0; 70_000])), SOp::Finish]);
+            v
+        };
+        for dmg in [30_000usize, 66_000, file.len() * 3 / 4, file.len() - 100] {
+            let mut x = file.clone();
+            for b in &mut x[dmg..dmg + 64] {
+                *b ^= 0x5A;
+            }
+            for piece in [x.len(), 100_000, 65_537, 65_536, 4096] {
+                let first: Vec<SOp> = x.chunks(piece).map(|c| SOp::WriteAll(Hex(c.to_vec()))).collect();
+                items.push((format!("{} literals, 64 bytes damaged at input offset {}, written in pieces of {} bytes", nlit, dmg, piece), Case::Stream { opts: Opts::default(), sk: Sk::default(), ops: probes(first) }, false));
+            }
+        }
+        // valid streams through windows of exactly 1 MiB / 2 MiB that wrap
+        for dict in [1u32 << 20, 2 << 20] {
+            let total = dict as usize + 4096 + 77;
+            let mut prog: Vec<Sym> = (0..300u32).map(|b| Sym::L((b * 67 + b / 7 + 3) as u8)).collect();
+            let mut produced = 300usize;
+            let mut k = 0u32;
+            while produced < total {
+                let l = (total - produced).min(273 - (k as usize * 13) % 100);
+                if l >= 2 {
+                    prog.push(Sym::M(1 + (k * 31) % 290, l as u32));
+                    produced += l;
+                } else {
+                    prog.push(Sym::L(k as u8));
+                    produced += 1;
+                }
+                k += 1;
+            }
+            let e = enc::encode(3, 0, 2, dict as u64, &prog);
+            let f = enc::lzma_file(3, 0, 2, dict, Some(e.expect.len() as u64), &e.payload);
+            for piece in [4096usize, f.len()] {
+                let mut ops: Vec<SOp> = f.chunks(piece).map(|c| SOp::WriteAll(Hex(c.to_vec()))).collect();
+                ops.extend([SOp::Write(Hex(vec![1, 2, 3])), SOp::Finish]);
+                items.push((format!("{} bytes through a window of exactly {} bytes, pieces of {}", e.expect.len(), dict, piece), Case::Stream { opts: Opts::default(), sk: Sk::default(), ops }, true));
+            }
+        }
+        par_for(items.len() as u64, |i| {
+            let (label, case, valid) = &items[i as usize];
+            let o = run_case(case);
+            ctx.eval(1);
+            ctx.nontriv(1);
+            if o.ops.iter().any(|r| r.v.is_panic()) {
+                ctx.violation(case, &format!("{}: no call panics", label), &o, None);
+                return;
+            }
+            if *valid {
+                // size reached: the extra write consumes nothing, finish Ok
+                let k = o.ops.len();
+                let ok = o.ops[..k - 2].iter().all(|r| r.v.is_ok()) && o.ops[k - 2].v.is_ok() && o.ops[k - 2].n == Some(0) && o.ops[k - 1].v.is_ok() && o.ops[k - 3].sink_len == o.ops[k - 2].sink_len;
+                if !ok {
+                    ctx.violation(case, &format!("{}: every write Ok, a further write after the declared size consumes nothing, finish Ok", label), &o, None);
+                }
+                return;
+            }
+            let Some(f) = o.ops.iter().position(|r| r.v.is_err()) else {
+                ctx.violation(case, &format!("{}: some write reports the damage", label), &o, None);
+                return;
+            };
+            let k = o.ops.len();
+            let sink_at_failure = o.ops[f].sink_len;
+            let later_writes_ok0 = o.ops[f + 1..k - 5].iter().all(|r| r.v.is_ok() && r.n == Some(0));
+            let (g, w, wa, wbig, fin) = (&o.ops[k - 5], &o.ops[k - 4], &o.ops[k - 3], &o.ops[k - 2], &o.ops[k - 1]);
+            let ok = later_writes_ok0 && g.v.is_ok() && g.n.is_none() && w.v.is_ok() && w.n == Some(0) && wa.v.is_err() && wbig.v.is_ok() && wbig.n == Some(0) && fin.v.is_err() && o.ops[f..].iter().all(|r| r.sink_len == sink_at_failure);
+            if !ok {
+                ctx.violation(case, &format!("{}: after the write that failed (call #{}), get_output is None, every write returns Ok(0), write_all and finish are errors, and the sink keeps its {} bytes", label, f, sink_at_failure), &o, None);
+            }
+        });
+        ctx.scope_done("long-inputs", items.len() as u64, t1, "damage beyond the first 64 KiB of a single write; windows of exactly 1 MiB and 2 MiB");
+    }
     ctx.finish()
 }
